@@ -2,7 +2,7 @@
    The extracted OCaml driver and the in-Coq replays both call only this. *)
 From Coq Require Import List ZArith NArith Bool.
 From AG Require Import Base.Val Base.Sort Str.MetaVar Str.AnB Str.Substring
-  Rewrite.Indent Rewrite.Template Tree.Tree Match.MatchNode Rule.Rule Rule.Eval Rule.Sem.
+  Rewrite.Indent Rewrite.Template Tree.Tree Tree.Wf Match.MatchNode Rule.Rule Rule.Traversal Rule.Eval Rule.Sem.
 Import ListNotations.
 Local Open Scope Z_scope.
 
@@ -94,6 +94,82 @@ Definition case_exact (v : val) : val :=
         | _, _ => vErr []
         end) (gL (gNth 2 v))).
 
+(* ---- C19 / C01: traversal and navigation on a dumped tree ---- *)
+Definition ids_of (top : tree) (ls : list loc) : val :=
+  VL (map (fun l => match get top l with Some t => vN (tid t) | None => vErr [] end) ls).
+Definition sub_at_in (locs : list (N * loc)) (root : tree) (id : N) : option (loc * tree) :=
+  match find (fun p => N.eqb (fst p) id) locs with
+  | Some (_, l) => match get root l with Some t => Some (l, t) | None => None end
+  | None => None
+  end.
+Definition sub_at (root : tree) (id : N) : option (loc * tree) := sub_at_in (id_locs root) root id.
+
+(* 30: (tree start-id) -> (pre post level) node ids of the traversals started at that node *)
+Definition case_traversals (v : val) : val :=
+  let root := g_tree (vdepth v) (gNth 0 v) in
+  match sub_at root (gN (gNth 1 v)) with
+  | None => vErr []
+  | Some (_, top) => VL [ids_of top (dfs top); ids_of top (post_all top); ids_of top (level_all top)]
+  end.
+
+(* 31: (src tree (ids)) -> per node: (parent children ancestors next prev next_all prev_all
+       (start line col) (end line col) wf-flags) *)
+Definition case_navigation (v : val) : val :=
+  let src := gS (gNth 0 v) in
+  let root := g_tree (vdepth v) (gNth 1 v) in
+  let locs := id_locs root in
+  VL (map (fun idv =>
+        match sub_at_in locs root (gN idv) with
+        | None => vErr []
+        | Some (l, t) =>
+            let pos (off : N) := VL [vN (count_nl (firstn (N.to_nat off) src)); vN (get_char_column src (N.to_nat off))] in
+            (* the sibling clause is restricted to parents all of whose children have non-zero width
+               (tree-sitter's own sibling links disagree about zero-width recovery nodes) *)
+            let sib_ok := match parent_loc l with
+                          | None => true
+                          | Some pl => match get root pl with
+                                       | Some par => forallb (fun c => N.ltb (tstart c) (tend c)) (children par)
+                                       | None => true
+                                       end
+                          end in
+            let sib (x : val) := if sib_ok then x else VL [] in
+            VL [ vOpt (fun q => ids_of root [q]) (parent_loc l);
+                 ids_of root (child_locs root l);
+                 ids_of root (ancestors l);
+                 sib (vOpt (fun q => ids_of root [q]) (next_loc root l));
+                 sib (vOpt (fun q => ids_of root [q]) (prev_loc root l));
+                 sib (ids_of root (next_all root l));
+                 sib (ids_of root (prev_all root l));
+                 pos (tstart t); pos (tend t) ]
+        end) (gL (gNth 2 v))).
+
+(* 32: (tree start-id reentrant (matching ids)) -> ids reported by Visitor over Pre *)
+Definition case_visit (v : val) : val :=
+  let root := g_tree (vdepth v) (gNth 0 v) in
+  match sub_at root (gN (gNth 1 v)) with
+  | None => vErr []
+  | Some (_, top) =>
+      let hits := gList gN (gNth 3 v) in
+      let m (l : loc) := match get top l with Some t => existsb (N.eqb (tid t)) hits | None => false end in
+      ids_of top (visit_pre_all top (gB (gNth 2 v)) m)
+  end.
+
+(* 33: (tree start-id (opt kinds) (matching ids)) -> ids reported by find_all *)
+Definition case_find_all (v : val) : val :=
+  let root := g_tree (vdepth v) (gNth 0 v) in
+  match sub_at root (gN (gNth 1 v)) with
+  | None => vErr []
+  | Some (_, top) =>
+      let hits := gList gN (gNth 3 v) in
+      let m (l : loc) := match get top l with Some t => existsb (N.eqb (tid t)) hits | None => false end in
+      ids_of top (find_all_locs top (gOpt (gList gN) (gNth 2 v)) m)
+  end.
+
+(* 34: tree -> well-formedness flags (wfb nonzero_width) evaluated on every dumped tree *)
+Definition case_wf (v : val) : val :=
+  let root := g_tree (vdepth v) (gNth 0 v) in
+  VL [vB (wfb root); vB (nonzero_widthb root)].
+
 Definition run_case (fid : Z) (v : val) : val :=
   match fid with
   | 1 => v_metavar (extract_meta_var (gN (gNth 0 v)) (gS (gNth 1 v)))
@@ -116,6 +192,11 @@ Definition run_case (fid : Z) (v : val) : val :=
   | 11 => case_match_len v
   | 12 => case_exact v
   | 20 => case_rule_match v
+  | 30 => case_traversals v
+  | 31 => case_navigation v
+  | 32 => case_visit v
+  | 33 => case_find_all v
+  | 34 => case_wf v
   | 100 => case_rule_sem v
   | _ => vErr []
   end.
